@@ -255,6 +255,7 @@ fn run(cmd: &str, args: &Args, gs: Vec<&'static dyn GrammarUnderTest>) -> i32 {
     match res {
         Some(v) => {
             ctx.ev.violations = 1;
+            ctx.ev.violation_sample(&v);
             ctx.ev.write();
             report_violation(prop, &v);
             1
